@@ -203,7 +203,20 @@ func runCheck(repo, verif, prop, tier string, keep bool, only string, verbose bo
 			o := r.Unit.oblige("contract", "contract-stale", r.Err, r.Contract.File, "true", "false")
 			o.Clause = r.Err
 		}
-		obls = append(obls, r.Unit.obls...)
+		for _, o := range r.Unit.obls {
+			if o.Kind == "safe" && len(r.Contract.NoPanicProps) > 0 {
+				keep := false
+				for _, pp := range r.Contract.NoPanicProps {
+					if pp == prop {
+						keep = true
+					}
+				}
+				if !keep {
+					continue
+				}
+			}
+			obls = append(obls, o)
+		}
 	}
 	tmp, _ := os.MkdirTemp("", "govc-"+prop+"-")
 	if keep {
@@ -319,6 +332,9 @@ func runCheck(repo, verif, prop, tier string, keep bool, only string, verbose bo
 		for _, b := range r.Unit.preludeBlocks {
 			trusted["prelude block: "+b] = true
 		}
+		for _, a := range r.Unit.envAssumes {
+			trusted["environment assumption: "+a] = true
+		}
 	}
 	for k := range trusted {
 		assumptions = append(assumptions, k)
@@ -329,7 +345,8 @@ func runCheck(repo, verif, prop, tier string, keep bool, only string, verbose bo
 		"Go int is 64-bit; integer arithmetic modelled as mathematical integers with explicit wrap-around at every operation and conversion",
 		"slices are value sequences: aliasing between slices is not modelled; capacity is not modelled; slice lengths are at most 2^48",
 		"calls into logging/metrics/formatting packages return arbitrary values and do not touch modelled state",
-		"goroutine bodies started with `go` are not executed; scheduling is not modelled")
+		"goroutine bodies started with `go` are not executed; scheduling is not modelled",
+		"pointer values received from channels are non-nil")
 	var samples []oblReport
 	for i, r := range reports {
 		if i < 400 {
